@@ -30,6 +30,9 @@ func (e *Exec) modelZero(nt *types.Named) (Value, bool) {
 	if nt.Obj().Name() == "zzW" {
 		return e.b.IntConst(bigZero), true
 	}
+	if nt.Obj().Name() == "zzR" {
+		return e.b.RealConst(bigZero), true
+	}
 	return nil, false
 }
 
